@@ -1,5 +1,6 @@
 import Xo.Props.C03
 import Xo.Lemmas.RefGraphOps
+import Xo.Lemmas.CApiFields
 /-! C05 — object bytes follow the documented binary layout (property theorems only).
 
 The documented format (Architecture.md, docs/architecture/types.rst): 8-byte slots; dynamically sized objects begin with their
@@ -164,5 +165,25 @@ theorem C05_new_node_bytes (cl : RG.Cls) (vs : List Nat) :
     (∀ k c, cl[k]? = some (.ref c) → readAt (RG.initBytes cl vs) (RG.foff cl k) 8 = refNullBytes) ∧
     (∀ k cs, cl[k]? = some (.uref cs) → readAt (RG.initBytes cl vs) (RG.foff cl k) 16 = urefNullBytes) :=
   ⟨RG.initBytes_length cl vs, fun k c h => RG.initBytes_ref cl vs k c h, fun k cs h => RG.initBytes_uref cl vs k cs h⟩
+
+
+/-! ### every type of the grammar, references included, as a layout-model type (`toLayR`: a reference slot is an opaque 8-byte
+word, a union reference an opaque 16-byte word).  All layout theorems above and in C01 / C03 / C06 / C10 are statements about
+`Lay.Ty` and therefore hold for `toLayR tc` of ANY type `tc`: where a reference slot sits inside a dynamic struct or an array, how
+large the enclosing object is and what surrounds the slot is pure layout.  `toLayR` is executed against the library on every
+reference-bearing case of the `lay` stream (the proof model's writer must reproduce the object's bytes, its reader every
+non-reference leaf). -/
+
+/-- the class-level size of every type - references included - is the size the layout model gives its translation -/
+theorem C05_sizes_with_references (tc : CGen.Ty) : CGen.Ty.ssize tc = (toLayR tc).ssize := ssize_toLayR tc
+
+/-- on reference-free types `toLayR` is the translation `toLay` the C-API theorems (C02) are about -/
+theorem C05_toLayR_extends_toLay (tc : CGen.Ty) (t : Ty) (h : toLay tc = some t) : toLayR tc = t := toLayR_of_toLay tc t h
+
+/-- example: in `{k: Int64, r: Ref[…], s: String, u: UnionRef[…][2]}` the reference word sits at offset 16 (after the size word and
+`k`), the union words inside the array that follows the string -/
+example : leafAt (toLayR (.struct "S" [("k", .scalar .i64), ("r", .ref (.scalar .i64)), ("s", .string),
+      ("u", .array (.unionref "U" []) [some 2] [0])]))
+    (.struct [.bits 7, .bits 0, .str [97], .arr [2] [.bits 0, .bits 0]]) [1] = some (16, 8) := rfl
 
 end Lay
